@@ -270,7 +270,7 @@ def cnt_read(ctx):
         if pp and pp[0] == 1 and not (set(iter_adaptors(src)) & LOSSY_ADAPTORS) and clo:
             n, cl = clo[0]
             if cl and cl[0] == 'closure':
-                cr = versionless(interp(facts, facts.by_uid[cl[1]]).ret)
+                cr = versionless(interp(facts, facts.cb(cl[1])).ret)
                 ok = cr == ('field', ('param', 2), 'counter')
     ctx.check(ok, 'GCounter::read', body, 'sum of the counters of every dot', 'GCounter::read is %s, expected the sum of every dot counter of inner' % fmt(r, 5))
     pos, neg, body, r = _pn_fields(facts, ctx)
@@ -299,8 +299,13 @@ def cnt_route(ctx):
         if r[0] == 'agg' and r[1].endswith('pncounter::Op'):
             f = dict(r[3])
             d, dr = f.get('dot'), f.get('dir')
-            if is_call(d, callee, self_adt='GCounter') and param_path(d[2][0]) == (1, (fld,)) and dr[0] == 'agg':
-                args_ok = all(versionless(a) == ('param', i + 2) for i, a in enumerate(d[2][1:]))
+            inner = ('field', ('field', ('param', 1), fld), 'inner')
+            if callee == 'inc':
+                shape_ok = next_dot_of(facts, d) == (inner, ('param', 2))
+            else:
+                shape_ok = stepped_dot_of(facts, d) == (inner, ('param', 2), ('param', 3))
+            if shape_ok and dr[0] == 'agg':
+                args_ok = True
                 prev = dir_of.setdefault(fld, dr[2])
                 ok = args_ok and prev == dr[2]
                 if not ok:
@@ -382,21 +387,14 @@ def cnt_step(ctx):
     """GCounter::inc = inner.inc(actor); GCounter::inc_many(actor, steps) = Dot{actor, steps + inner.get(actor)}."""
     facts = ctx.facts
     body = ctx.inherent(GCOUNTER, 'inc')
-    r = drop_lv(interp(facts, body).ret)
-    ok = is_call(r, 'inc', self_adt='VClock') and param_path(r[2][0]) == (1, ('inner',)) and versionless(r[2][1]) == ('param', 2)
-    ctx.check(ok, 'inc', body, 'inner.inc(actor)', 'GCounter::inc is %s, expected self.inner.inc(actor)' % fmt(r, 5))
+    r = interp(facts, body).ret
+    inner = ('field', ('param', 1), 'inner')
+    ok = next_dot_of(facts, r) == (inner, ('param', 2))
+    ctx.check(ok, 'inc', body, 'inner.inc(actor)', 'GCounter::inc is %s, expected the next dot of self.inner for the actor' % fmt(normal(facts, r), 5))
     body = ctx.inherent(GCOUNTER, 'inc_many')
-    r = drop_lv(expand_all(facts, interp(facts, body).ret, stop=('VClock::get',)))
-    ok = False
-    if r[0] == 'agg' and r[1] == DOT:
-        f = dict(r[3])
-        c = f.get('counter', ('undef',))
-        if versionless(f.get('actor', ('undef',))) == ('param', 2) and c[0] == 'binop' and c[1] == 'Add':
-            ops = [versionless(c[2]), versionless(c[3])]
-            step = [o for o in ops if o == ('param', 3)]
-            get = [o for o in ops if is_call(o, 'get', self_adt='VClock') and param_path(o[2][0]) == (1, ('inner',)) and versionless(o[2][1]) == ('param', 2)]
-            ok = bool(step and get)
-    ctx.check(ok, 'inc_many', body, 'Dot{actor, steps + inner.get(actor)}', 'GCounter::inc_many is %s, expected Dot{actor, steps + self.inner.get(actor)}' % fmt(r, 5))
+    r = interp(facts, body).ret
+    ok = stepped_dot_of(facts, r) == (inner, ('param', 2), ('param', 3))
+    ctx.check(ok, 'inc_many', body, 'Dot{actor, steps + inner.get(actor)}', 'GCounter::inc_many is %s, expected Dot{actor, steps + self.inner.get(actor)}' % fmt(normal(facts, r), 5))
 
 
 @rule('GSET-GLIST', dict(ABSORB_WHY, **{'C11': 'GSet reads the union of inserted elements'}), floor=4)
@@ -424,7 +422,7 @@ def gset_glist(ctx):
                     if n == 'for_each':
                         inner = False
                         for clo, m in closure_bindings(c.term):
-                            cb = facts.by_uid.get(clo[1])
+                            cb = facts.cb(clo[1])
                             cit = interp(facts, cb)
                             for b2, c2 in cit.calls.items():
                                 if call_name(c2.term) == 'insert' and versionless(subst(c2.args[-1].val, m))[0] == 'item':
